@@ -27,5 +27,7 @@ def run(P, R, L):
     K.pair12_file_level_pairs(P, R, L)
     R.clause("OWN-8", "file numbers are unique: who writes the counter, and in which direction")
     K.own8_file_numbers(P, R, L)
+    R.clause("GRD-16", "a compaction is done as a trivial move only when it has a single input file and no overlapping parent-level file")
+    K.grd16_trivial_move(P, R, L)
     R.not_decided += ["disjointness / sortedness of a level for a concrete history (runtime assertion in VersionBuilder::maybe_add_file)",
                       "uniqueness of file numbers"]
